@@ -80,7 +80,7 @@ Definition set_normal_interval (v : Z) : Z := Z.min (Z.max min_normal v) max_nor
 Definition set_min_interval (v : Z) : Z := Z.min (Z.max min_min v) max_min.
 
 Definition success_time_next (t : tracker) : Z :=
-  if t_sc t =? 0 then 0 else t_stl t + Z.max (t_ni t) min_normal.
+  if t_sc t =? 0 then 0 else t_stl t + Z.max (Z.max (t_ni t) (t_mi t)) min_normal.
 
 Definition backoff (fc : Z) : Z :=
   Z.min (Z.shiftl backoff_base (Z.min (fc - 1) backoff_cap)) min_min.
@@ -279,7 +279,7 @@ Definition send_update_event (s : state) : state :=
              else s in
     match filter is_usable (trs s) with
     | [] => s
-    | a :: _ => send_event SrcUpdate a EvNone s
+    | a :: _ => send_event SrcUpdate a (current_send_event (fl s)) s
     end.
 
 Definition manual_request (s : state) : state :=
@@ -406,7 +406,10 @@ Definition ctl_receive_success (id : nat) (s : state) : state :=
   if negb (f_active (fl s)) then s
   else
     let f := fl s in
-    let s := set_fl s (mkF false false false false (f_active f) (f_requesting f) false false) in
+    (* only a request that carried the pending event delivers it *)
+    let latest := match find_id (trs s) id with Some t => t_ev t | None => EvNone end in
+    let f1 := if event_eqb latest (current_send_event f) then clear_mask f else f in
+    let s := set_fl s (mkF (f_update f1) (f_completed f1) (f_start f1) (f_stop f1) (f_active f) (f_requesting f) false false) in
     if f_requesting f then update_timeout requesting_success_timeout s
     else if negb (has_active (trs s)) then
       match find_id (trs s) id with
